@@ -439,7 +439,7 @@ func c18Blocks(r *rand.Rand, rep *runReport, cw *caseWriter, cwd string, n int, 
 				continue
 			}
 			eis := []int{(ti*7 + ki) % len(ents)}
-			if ti%2 == 0 {
+			if ti%4 == 0 || n >= 1000 {
 				eis = append(eis, 0)
 			}
 			for _, ei := range eis {
@@ -1026,7 +1026,7 @@ func c18MatchStratum() []c18Scenario {
 // time over its whole pool of valid / invalid / borderline values while the other options of the block keep a good
 // value (systematic, every tier), crossed with c18ExerciserRules.  Blocks that need a server run online against the
 // fake Prometheus.
-func c18SettingsStratum(promURL string) []c18Scenario {
+func c18SettingsStratum(promURL string, full bool) []c18Scenario {
 	q := func(xs ...string) []string {
 		out := make([]string, len(xs))
 		for i, x := range xs {
@@ -1102,15 +1102,68 @@ func c18SettingsStratum(promURL string) []c18Scenario {
 		tag := strings.Fields(b.tag)[0] + ":" + varied
 		out = append(out, c18Scenario{ID: fmt.Sprintf("set-%d-%s", len(out), tag), Config: cfg, Rules: c18ExerciserRules, Online: b.online, Tags: []string{"settings-stratum", tag}})
 	}
-	for _, b := range blocks {
-		for _, l := range b.labels {
-			emit(b, l, "<label>", "")
-		}
-		for _, o := range b.opts {
-			for _, v := range o.pool {
-				emit(b, b.lab, o.name, v)
+	// quick tier: the big shared pools (durations, severities, label patterns) are walked completely by the FIRST option
+	// that uses them and by every second / third value (rotating with the block and option index) elsewhere
+	seenPool := map[string]bool{}
+	for bi, b := range blocks {
+		for li, l := range b.labels {
+			if full || bi == 0 || (li+bi)%2 == 0 {
+				emit(b, l, "<label>", "")
 			}
 		}
+		for oi, o := range b.opts {
+			key := strings.Join(o.pool, "\x00")
+			first := !seenPool[key]
+			seenPool[key] = true
+			for vi, v := range o.pool {
+				if full || first || len(o.pool) < 8 || (vi+bi+oi)%2 == 0 {
+					emit(b, b.lab, o.name, v)
+				}
+			}
+		}
+	}
+	return out
+}
+
+// c18TopLevelStratum: every regexp / duration / selector option of the TOP-LEVEL blocks (parser, owners, prometheus,
+// discovery) one at a time over a pool with valid, invalid and borderline values.  These are the options whose value
+// is validated in one form and compiled in another ("validated bare, used inside anchors": unterminated \Q sections,
+// alternations, flags) — the ValidatedWrapped class of the site table.
+func c18TopLevelStratum(promURL string) []c18Scenario {
+	res := []string{".*", "rules/.*", "a|b", `\Qa.b\E.*`, `\QCPU`, `\Qx(y)`, `\Qsre+oncall(emea)`, "(", "[a", `\`, "(?i)x", "", "x)", "(?P<n>.+)", "^rules/0.yml$"}
+	durs := []string{"5m", "1h", "0s", "1d", "abc", "", "5", "-1m", "1.5h", " 5m"}
+	var out []c18Scenario
+	add := func(tag, cfg string, online bool) {
+		out = append(out, c18Scenario{ID: fmt.Sprintf("top-%d-%s", len(out), tag), Config: cfg, Rules: c18ExerciserRules, Online: online, Tags: []string{"toplevel-stratum", tag}})
+	}
+	prom := func(body string) string { return fmt.Sprintf("prometheus \"prom\" {\n  uri = %q\n%s}\n", promURL, body) }
+	for _, v := range res {
+		h := hclStr(v)
+		add("parser.include", fmt.Sprintf("parser {\n  include = [%s]\n}\n", h), false)
+		add("parser.exclude", fmt.Sprintf("parser {\n  exclude = [%s]\n}\n", h), false)
+		add("parser.relaxed", fmt.Sprintf("parser {\n  relaxed = [%s]\n}\n", h), false)
+		add("owners.allowed", fmt.Sprintf("owners {\n  allowed = [%s]\n}\n", h), false)
+		add("prometheus.include", prom(fmt.Sprintf("  include = [%s]\n", h)), true)
+		add("prometheus.exclude", prom(fmt.Sprintf("  exclude = [%s]\n", h)), true)
+		add("discovery.filepath.match", fmt.Sprintf("discovery {\n  filepath {\n    directory = \"rules\"\n    match = %s\n    template {\n      name = \"d\"\n      uri = %q\n    }\n  }\n}\n", h, promURL), true)
+		add("discovery.filepath.ignore", fmt.Sprintf("discovery {\n  filepath {\n    directory = \"rules\"\n    match = \".*\"\n    ignore = [%s]\n    template {\n      name = \"d\"\n      uri = %q\n    }\n  }\n}\n", h, promURL), true)
+		add("discovery.template.include", fmt.Sprintf("discovery {\n  filepath {\n    directory = \"rules\"\n    match = \".*\"\n    template {\n      name = \"d\"\n      uri = %q\n      include = [%s]\n    }\n  }\n}\n", promURL, h), true)
+	}
+	for _, v := range durs {
+		add("prometheus.timeout", prom(fmt.Sprintf("  timeout = %s\n", hclStr(v))), true)
+		add("discovery.template.timeout", fmt.Sprintf("discovery {\n  filepath {\n    directory = \"rules\"\n    match = \".*\"\n    template {\n      name = \"d\"\n      uri = %q\n      timeout = %s\n    }\n  }\n}\n", promURL, hclStr(v)), true)
+	}
+	for _, v := range []string{"up", "prometheus_build_info", "foo{", "sum(up)", "", "{}", "up{a=~\"(\"}"} {
+		add("prometheus.uptime", prom(fmt.Sprintf("  uptime = %s\n", hclStr(v))), true)
+	}
+	for _, v := range []string{`["a"]`, `["a", "b"]`, `["a b"]`, `[""]`, `["a\nb"]`, `["(+x)"]`} {
+		add("prometheus.tags", prom(fmt.Sprintf("  tags = %s\n", v)), true)
+	}
+	for _, v := range []string{"utf-8", "legacy", "bogus", ""} {
+		add("parser.names", fmt.Sprintf("parser {\n  names = %s\n}\n", hclStr(v)), false)
+	}
+	for _, v := range []string{"prometheus", "thanos", "bogus", ""} {
+		add("parser.schema", fmt.Sprintf("parser {\n  schema = %s\n}\n", hclStr(v)), false)
 	}
 	return out
 }
@@ -1156,7 +1209,7 @@ func c18Configs(r *rand.Rand, rep *runReport, cwd string, n int, strata bool) {
 		rep.hist("cfg:stratum=" + sc.Tags[1])
 	}
 	scens = append(scens, ms...)
-	ss := c18SettingsStratum(srv.URL)
+	ss := c18SettingsStratum(srv.URL, n >= 1000)
 	if !strata {
 		ss = nil
 	}
@@ -1164,6 +1217,14 @@ func c18Configs(r *rand.Rand, rep *runReport, cwd string, n int, strata bool) {
 		rep.hist("cfg:stratum=" + sc.Tags[1])
 	}
 	scens = append(scens, ss...)
+	ts := c18TopLevelStratum(srv.URL)
+	if !strata {
+		ts = nil
+	}
+	for _, sc := range ts {
+		rep.hist("cfg:stratum=" + sc.Tags[1])
+	}
+	scens = append(scens, ts...)
 	fs := c18FlagStratum(basicRules)
 	if !strata {
 		fs = nil
@@ -1222,7 +1283,7 @@ func c18Configs(r *rand.Rand, rep *runReport, cwd string, n int, strata bool) {
 		if sc.Online {
 			modes = append(modes, []string{})
 		}
-		if sc.Online && len(sc.Tags) > 0 && sc.Tags[0] == "settings-stratum" {
+		if sc.Online && len(sc.Tags) > 0 && (sc.Tags[0] == "settings-stratum" || sc.Tags[0] == "toplevel-stratum") {
 			modes = [][]string{{}} // the block under test only does something with a server
 		}
 		for _, m := range modes {
